@@ -1255,6 +1255,12 @@ def gen_search(rng):
   elif kind == "grid":
     dim = len(D["bounds"])
     inp.update(bounds=D["bounds"][:3], cons=[], ppd=rng.choice([rng.randint(0, 4), [rng.randint(1, 4) for _ in range(min(3, dim))]]))
+    if rng.random() < 0.6:
+      # bounds that are not dyadic (two decimals, any scale), more levels: lo + k * step rounds, the last level must still BE the upper bound (C08_m14)
+      sc = 10.0 ** rng.randint(-3, 4)
+      inp["bounds"] = [sorted([round(rng.uniform(-9, 9), 2) * sc, round(rng.uniform(-9, 9), 2) * sc + 0.01 * sc]) for _ in inp["bounds"]]
+      k = len(inp["bounds"])
+      inp["ppd"] = rng.choice([rng.randint(2, 9), [rng.randint(1, 9) for _ in range(k)]])
   elif kind == "direct":
     inp.update(which=rng.choice(["uniform", "sobol", "halton", "lhs", "rejection", "padding", "padding", "hitandrun"]), n=rng.randint(1, 12),
                q=D["q"] if rng.random() < 0.6 else face_point(rng, D),   # the chain may start on a face of the polytope
@@ -1409,7 +1415,21 @@ def _oracle(kind, inp, dm, smp, geo, bounds, cons):
     out = smp.generate_grid_points(inp["ppd"], B)
     ppd = inp["ppd"]
     exp = 0 if (ppd == [] or (isinstance(ppd, list) and 0 in ppd) or ppd == 0) else (ppd ** len(bounds) if not isinstance(ppd, list) else math.prod(ppd))
-    return _check_points(kind, inp, out, exp, bounds, [])
+    r = _check_points(kind, inp, out, exp, bounds, [])
+    if r or exp == 0:
+      return r
+    # the grid is EXACTLY inside the box (no tolerance: nothing is computed that could round outwards - the extreme levels are the bounds themselves)
+    arr = numpy.asarray(out, dtype=float).reshape(exp, len(bounds))
+    for j, (lo, hi) in enumerate(bounds):
+      n_j = ppd[j] if isinstance(ppd, list) else ppd
+      col = arr[:, j]
+      if float(col.min()) < lo or float(col.max()) > hi:
+        return _fail(kind, inp, "grid: a level lies outside the bounds (by rounding)", dict(dim=j, min=float(col.min()), max=float(col.max())), [lo, hi])
+      if float(col.min()) != lo or (n_j >= 2 and float(col.max()) != hi):
+        return _fail(kind, inp, "grid: the extreme levels are not the bounds", dict(dim=j, min=float(col.min()), max=float(col.max())), [lo, hi])
+      if hi > lo and len(set(col.tolist())) != n_j:
+        return _fail(kind, inp, "grid: number of distinct levels", dict(dim=j, levels=len(set(col.tolist()))), n_j)
+    return None
   if kind == "lhs":
     n = inp["n"]
     out = numpy.asarray(smp.generate_latin_hypercube_points(n, B, **(inp.get("lhs_opts") or {})))
